@@ -4,7 +4,7 @@
 set -u
 export GOFLAGS=-mod=mod GOPROXY=off GOSUMDB=off GOTOOLCHAIN=local
 unset GOWORK
-P=$1; N=$2
+P=$1; N=$2; R=${3:-}
 wt=/tmp/wt_$P; out=$wt/_out
 diff=$out/change$N.diff
 [ -f "$diff" ] || { echo "no $diff"; exit 2; }
@@ -52,7 +52,7 @@ verdict=REJECT
 if [ $rc_clean -eq 0 ] && [ $rc_build -eq 0 ] && [ $suite_ok -eq 1 ] && [ $rc_mut -ne 0 ] && [ $testedit -eq 0 ] && [ $nontest -ge 1 ]; then verdict=CONFIRMED; fi
 echo "== $P change $N: $verdict"
 [ $verdict = CONFIRMED ] || exit 1
-d=/verif/seeded/agent-$P-$N
+d=/verif/seeded/agent$R-$P-$N
 mkdir -p $d
 cp $diff $d/patch.diff
 if [ -f "$demo" ]; then cp $demo $d/$(basename $demo); else cp -r $demo $d/; fi
@@ -74,10 +74,10 @@ for i in 01 02 03 04 05 06 07 08 09 10 11 12 13 14 15 16 17 18 19 20; do
 done
 rm -rf $s
 echo "   caught by:${caught:- NOTHING}"
-python3 - "$P" "$N" "$caught" <<'PY'
+python3 - "$P" "$N" "$caught" "$R" <<'PY'
 import json,sys,os,re
-P,N,caught=sys.argv[1],sys.argv[2],sys.argv[3].strip()
-d=f"/verif/seeded/agent-{P}-{N}"
+P,N,caught,R=sys.argv[1],sys.argv[2],sys.argv[3].strip(),sys.argv[4]
+d=f"/verif/seeded/agent{R}-{P}-{N}"
 notes=open(d+"/notes.md").read() if os.path.exists(d+"/notes.md") else ""
 own=re.search(re.escape(P)+r"\[([^\]]*)\]",caught)
 expect=[r for r in (own.group(1).split(',') if own else []) if r and r!='BROKEN']
@@ -89,7 +89,7 @@ if not expect and also:
     m2=re.search(re.escape(prim)+r"\[([^\]]*)\]",caught)
     expect=[r for r in m2.group(1).split(',') if r and r!='BROKEN']
     also=also[1:]
-meta={"id":f"agent-{P}-{N}","kind":"breaking","property":prim,"intended_property":P,"expect":expect,"also_properties":also,
+meta={"id":f"agent{R}-{P}-{N}","kind":"breaking","property":prim,"intended_property":P,"expect":expect,"also_properties":also,
  "breaks":notes.strip().split("\n")[0][:300] if notes else "",
  "needs_to_manifest":"see notes.md",
  "origin":"independent sub-agent given only the property text and a scratch worktree",
